@@ -97,7 +97,7 @@ Fixpoint ent_read_loop (fuel : nat) (inp : list char) (cur : option (list item))
   | O => None
   | S f =>
     match inp with
-    | [] => match cur with None => Some (rev done) | Some _ => None end
+    | [] => Some (rev done)     (* iterating the tokenizer stops at the end of the text: an unfinished entity is dropped *)
     | c :: r =>
       if c =? LBRACE then match cur with None => ent_read_loop f r (Some []) done | Some _ => None end
       else if c =? RBRACE then match cur with Some its => ent_read_loop f r None (rev its :: done) | None => None end
